@@ -23,13 +23,13 @@ CHECKS = {
    tech="deterministic simulation: seeded histories decoded by an independent v2 reader"),
 
  "C01": dict(engine="crashsim+schedsim", cat="fault_enumeration", ref="DESIGN.md §6 C01, §11.9",
-   text="Crash points are enumerated per recorded history (after every I/O call and inside writes) and crossed with persisted subsets of the unsynced units (complete for small windows, structured samples otherwise); each crash image is judged by the independent decoder and by real recovery plus a follow-up commit. Histories are sampled. Round 3: histories with a multi-page free list, histories ending in a commit with a failing sync (an acknowledged commit must survive), commit failures in the middle of a history, read-only inspection of crash images before recovery, the end of the history as a crash point; every fourth run builds crash states from the I/O log of a multi-writer run under the token scheduler.",
+   text="Crash points are enumerated per recorded history (after every I/O call and inside writes) and crossed with persisted subsets of the unsynced units (complete for small windows, structured samples otherwise); each crash image is judged by the independent decoder and by real recovery plus a follow-up commit. Histories are sampled. Round 3: histories with a multi-page free list, histories ending in a commit with a failing sync (an acknowledged commit must survive), commit failures in the middle of a history, read-only inspection of crash images before recovery, the end of the history as a crash point; every fourth run builds crash states from the I/O log of a multi-writer run under the token scheduler. Round 4: a fifth of the sequential histories run under a reachable MaxSize (commits refused at the limit in the middle of the history).",
    tech="deterministic simulation with fault injection: shadow-disk crash-state enumeration (crash point x persisted subset), decoder + real recovery oracle"),
  "C06": dict(engine="crashsim", cat="exploration", ref="DESIGN.md §6 C06",
    text="Invariant monitored on every pwrite of every seeded history: the written page range must not intersect the page sets of the newest committed version, of any open reader's version, or the newest meta slot. A sixth of the sequential histories contain a commit failure (data write, data sync, torn meta write) whose aftermath the monitor judges.",
    tech="deterministic simulation: I/O interposition monitor over seeded histories with held readers"),
- "C08": dict(engine="faultsim", cat="fault_enumeration", ref="DESIGN.md §6 C08",
-   text="For a chosen commit of each seeded history every I/O call it issues is made to fail once (all positions and kinds in thorough, a sample incl. meta write and final sync in quick), with and without readers held across the failure; afterwards in-process state, readers, accounting, the next writer and the reopened state are checked. Every third run is the concurrent arm: writer and reader tasks under the token scheduler while I/O faults hit whichever commits are running (readers that begin or dump during the failing commit keep their snapshot, waiting writers proceed, clean reopen shows the newest acknowledged version). Histories are sampled.",
+ "C08": dict(engine="faultsim+schedsim+sizesim", cat="fault_enumeration", ref="DESIGN.md §6 C08",
+   text="For a chosen commit of each seeded history every I/O call it issues is made to fail once (all positions and kinds in thorough, a sample incl. meta write and final sync in quick), with and without readers held across the failure; afterwards in-process state, readers, accounting, the next writer and the reopened state are checked. Every third run is the concurrent arm: writer and reader tasks under the token scheduler while I/O faults hit whichever commits are running (readers that begin or dump during the failing commit keep their snapshot, waiting writers proceed, clean reopen shows the newest acknowledged version). One run in six is the size-limit arm: growing workloads against a MaxSize, what a refused commit leaves behind (content, accounting, statistics, the next writer) is judged as after any other failed commit. Histories are sampled.",
    tech="deterministic simulation with fault injection: k-th I/O call of a commit fails (EIO/ENOSPC/short write) through the I/O hooks; sequential enumeration arm + token-scheduler arm with faults under concurrency"),
  "C18": dict(engine="sizesim", cat="exploration", ref="DESIGN.md §6 C18",
    text="Seeded growing workloads under MaxSize values drawn around every alignment boundary; file length monitored at every ftruncate/pwrite and after every step; failing transactions must fail with the size-limit error and leave state intact.",
@@ -50,7 +50,7 @@ CHECKS = {
    text="Seeded runs of concurrent Batch callers under the token scheduler and fake clock (batch timers fire only when the scheduler advances time), with per-call failure plans; exactly-once tokens and read-modify-write counters per nil return, own error/panic per failure, every call returns. In a third of the runs I/O faults make batch commits fail: every caller of that batch must be told and none of its effects committed.",
    tech="deterministic simulation: token scheduler + synctest fake clock over DB.Batch, exactly-once token/counter oracle"),
  "C17": dict(engine="locksim", cat="exploration", ref="DESIGN.md §6 C17",
-   text="Seeded open/close schedules of read-write and read-only handles on one path under the token scheduler and fake clock against a lock model; seeded API programs and the CLI inspection commands against a read-only handle with every I/O call observed and the file hash compared; writes into returned memory must fault or leave content unchanged. Round 3: openers racing to create the file with a per-holder counter that must not lose increments; the fault-or-copy probe also on read transactions of read-write handles.",
+   text="Seeded open/close schedules of read-write and read-only handles on one path under the token scheduler and fake clock against a lock model; seeded API programs and the CLI inspection commands against a read-only handle with every I/O call observed and the file hash compared; writes into returned memory must fault or leave content unchanged. Round 3: openers racing to create the file with a per-holder counter that must not lose increments; the fault-or-copy probe also on read transactions of read-write handles. Round 4: read-only opens and every CLI inspection command on an empty file and on junk must leave the file byte-identical.",
    tech="deterministic simulation: token scheduler + fake clock over flock retry/timeout, I/O interposition on a read-only handle, fault-or-copy probe"),
  "C09": dict(engine="flspec", cat="exploration", ref="DESIGN.md §6 C09",
    text="Seeded sequences of allocator operations, structured as the database issues them, run on both freelist backends against a shadow specification written from the property; serialisation checked by the published page layout incl. the >65534-entry encoding. The allocator has no I/O/clock/schedule: plain seeded model-based testing, said plainly. The count-overflow scenario writes 65533..65536 and more entries (the boundary itself), also in quick.",
@@ -65,7 +65,7 @@ CHECKS = {
    text="Seeded source populations compacted (library and CLI) under a range of transaction-size limits; destination decoded, dumped, checked; source hash compared. No fault/schedule dimension: fault-free arm, said plainly. A quarter of the sources are foreign layouts; bucket names that equal joined nested paths.",
    tech="seeded model-based testing over simulated histories as source population (fault-free arm)"),
  "C19": dict(engine="corruptsim", cat="fault_enumeration", ref="DESIGN.md §6 C19",
-   text="Sweep of single structural corruptions of the listed classes over eligible pages/elements of consistent files from seeded histories; the independent decoder referees which classes are present; Tx.Check and `bbolt check` must report exactly then. Files are sampled; the sweep per file is capped. A quarter of the files are foreign layouts; bucket headers redirected to another bucket's root (referenced twice through a header).",
+   text="Sweep of single structural corruptions of the listed classes over eligible pages/elements of consistent files from seeded histories; the independent decoder referees which classes are present; Tx.Check and `bbolt check` must report exactly then. Files are sampled; the sweep per file is capped. A quarter of the files are foreign layouts; bucket headers redirected to another bucket's root (referenced twice through a header); round 4: an invalid type value in the header of either meta page.",
    tech="structural fault injection on files at rest, independent decoder as referee, library + CLI"),
  "C20": dict(engine="repairsim", cat="exploration", ref="DESIGN.md §6 C20",
    text="Repair commands run from the CLI package on files from seeded histories; outputs decoded and opened, free == unreachable, revert output equals the previous model version, sources byte-identical. One run in 46 uses a file of more than 16 MiB whose meta pages disagree about the high-water mark.",
